@@ -9,7 +9,7 @@ mkdir -p build/tmp
 for FLAV in plain asan; do
   BD=$(sim/build.sh $FLAV 2>/dev/null | tail -1)
   if [ $FLAV = plain ]; then WS="16 5 1"; CNT=$N; else WS="8 3"; CNT=$((N/5)); fi
-  for P in ssv strf pipe term mem sing svx hist leak sym carry; do
+  for P in ssv strf pipe term mem sing svx hist leak symleak sym carry forest tiny; do
     base=$((RANDOM * 8))
     i=0
     for W in $WS; do
